@@ -46,6 +46,7 @@ type FileRunner struct {
 	written []writtenRec
 	staged  []writtenRec
 	damaged bool
+	transplant string // set by copyblock: the damage is a whole block replaced by another block of the same file
 	saved   []byte
 	Oracle  []string
 	lastLog int64
@@ -117,7 +118,7 @@ func (r *FileRunner) Exec(f []string) (res string) {
 		if len(f) > 4 && f[4] == "hint" {
 			r.suffix = datafile.HintFileSuffix
 		}
-		r.poss, r.written, r.staged, r.damaged = nil, nil, nil, false
+		r.poss, r.written, r.staged, r.damaged, r.transplant = nil, nil, nil, false, ""
 		r.base = 0
 		_ = os.Remove(r.path())
 		if err := r.reopen(); err != nil {
@@ -267,7 +268,7 @@ func (r *FileRunner) Exec(f []string) (res string) {
 						if w.bid == p.BlockID && w.off == p.Offset {
 							found = true
 							if w.typ != rec.Type || !bytes.Equal(w.key, rec.Key) || !bytes.Equal(w.val, rec.Value) || w.batch != rec.BatchID {
-								r.fail12("scan of the damaged file returned at (%d,%d) a record that differs from the one written there (key %s, %d value bytes)", p.BlockID, p.Offset, Obs(rec.Key), len(rec.Value))
+								r.fail12("scan of the damaged file%s returned at (%d,%d) a record that differs from the one written there (key %s, %d value bytes)", r.transplant, p.BlockID, p.Offset, Obs(rec.Key), len(rec.Value))
 							}
 						}
 					}
@@ -332,7 +333,7 @@ func (r *FileRunner) Exec(f []string) (res string) {
 				}
 			}
 			if !ok && len(r.written) > 0 {
-				r.fail12("random read of the damaged file at (%d,%d) returned %d bytes that were not written there", p.BlockID, p.Offset, len(v))
+				r.fail12("random read of the damaged file%s at (%d,%d) returned %d bytes that were not written there", r.transplant, p.BlockID, p.Offset, len(v))
 			}
 		}
 		if err != nil {
@@ -391,6 +392,22 @@ func (r *FileRunner) Exec(f []string) (res string) {
 		r.Close()
 		b[off] ^= byte(mask)
 		_ = os.WriteFile(r.path(), b, 0644)
+		if err := r.reopen(); err != nil {
+			return "err " + ErrName(err)
+		}
+		return fmt.Sprintf("%d", r.df.Size())
+	case "copyblock": // F copyblock <src> <dst>: block <dst> of the file is overwritten by a copy of block <src> (both whole blocks)
+		r.damaged = true
+		src, dst := atoi(f[2]), atoi(f[3])
+		const bs = 32768
+		b, err := os.ReadFile(r.path())
+		if err != nil || (src+1)*bs > len(b) || (dst+1)*bs > len(b) {
+			return "err copyblock"
+		}
+		r.Close()
+		copy(b[dst*bs:(dst+1)*bs], append([]byte(nil), b[src*bs:(src+1)*bs]...))
+		_ = os.WriteFile(r.path(), b, 0644)
+		r.transplant = fmt.Sprintf(" (block %d copied over block %d)", src, dst)
 		if err := r.reopen(); err != nil {
 			return "err " + ErrName(err)
 		}
